@@ -519,7 +519,49 @@ theorem asUnsafePath_safe (env : Env) (fd : Fd) (hp : 0 ≤ env.proc.fd) :
   · intro sub _; exact readlinkH_safe env env.proc _ sub hp
   · intro _ _; trivial
 
-/-- `open_follow` contains the one `openat` without `O_NOFOLLOW`, hence `Disc true` -/
+/-- the following half of `open_follow` contains the one `openat` without `O_NOFOLLOW`, hence `Disc true` -/
+theorem openFollowTail_safe (env : Env) (h : ProcH) (base : Procfs.Base) (subpath : Bytes) (fl : Nat)
+    (hh : 0 ≤ h.fd) : Safe (Disc true) (Procfs.openFollowTail env h base subpath fl) FdOk := by
+  unfold Procfs.openFollowTail
+  apply Safe.mbind (Q' := fun r => ∀ d n, r = .ok (d, some n) → single n)
+  · apply Safe.ofExcept
+    intro d n hdn
+    exact pathSplit_single hdn
+  · intro pr hpr
+    obtain ⟨parent, trailing⟩ := pr
+    dsimp only
+    split
+    · exact FdOk_err _
+    · rename_i trailing
+      have ht : single trailing := hpr parent trailing rfl
+      apply Safe.mbind (Q' := FdOk) (openH_safe env _ h base parent _ hh)
+      · intro pfd hpfd
+        have hpf : 0 ≤ pfd := hpfd pfd rfl
+        apply Safe.mbind (Q' := fun _ => True)
+          (onErr_any (fetchMntId_safe pfd [] hpf single_nil) (close_safe _))
+        · intro pm _
+          apply Safe.mbind (Q' := fun _ => True)
+            (onErr_any (verifySameMnt_safe pm pfd trailing hpf ht) (close_safe _))
+          · intro _ _
+            have hfollow : Safe (Disc true) (Sys.openatFollow pfd trailing fl 0) FdOk := by
+              apply openatFollow_safe
+              intro _
+              refine Or.inr (Or.inl ⟨rfl, hpf, ht, ?_⟩)
+              have : ∀ f, f ||| O_CLOEXEC ||| O_NOCTTY = f ||| (O_CLOEXEC ||| O_NOCTTY) := by
+                intro f; simp [Nat.or_assoc]
+              rw [this]
+              exact hasAll_or_left _ _
+            apply Safe.mbind (Q' := fun r => ∀ x, r = .ok x → FdOk x) (try_fd hfollow)
+            · intro r hr
+              apply Safe.mbind (Q' := fun _ => True) (lift_any (close_safe _))
+              · intro _ _; exact Safe.ofExcept (hr _ rfl)
+              · intro e _; exact FdOk_err e
+            · intro e _; exact FdOk_err e
+          · intro e _; exact FdOk_err e
+        · intro e _; exact FdOk_err e
+      · intro e _; exact FdOk_err e
+  · intro e _; exact FdOk_err e
+
 theorem openFollowH_safe (env : Env) (h : ProcH) (base : Procfs.Base) (subpath : Bytes) (oflags : Nat)
     (hh : 0 ≤ h.fd) : Safe (Disc true) (Procfs.openFollowH env h base subpath oflags) FdOk := by
   unfold Procfs.openFollowH
@@ -532,45 +574,10 @@ theorem openFollowH_safe (env : Env) (h : ProcH) (base : Procfs.Base) (subpath :
     split
     · split
       · exact openH_safe env _ h base _ _ hh
-      · exact FdOk_err _
-    · apply Safe.mbind (Q' := fun r => ∀ d n, r = .ok (d, some n) → single n)
-      · apply Safe.ofExcept
-        intro d n hdn
-        exact pathSplit_single hdn
-      · intro pr hpr
-        obtain ⟨parent, trailing⟩ := pr
-        dsimp only
-        split
+      · split
+        · exact openFollowTail_safe env h base _ fl hh
         · exact FdOk_err _
-        · rename_i trailing
-          have ht : single trailing := hpr parent trailing rfl
-          apply Safe.mbind (Q' := FdOk) (openH_safe env _ h base parent _ hh)
-          · intro pfd hpfd
-            have hpf : 0 ≤ pfd := hpfd pfd rfl
-            apply Safe.mbind (Q' := fun _ => True)
-              (onErr_any (fetchMntId_safe pfd [] hpf single_nil) (close_safe _))
-            · intro pm _
-              apply Safe.mbind (Q' := fun _ => True)
-                (onErr_any (verifySameMnt_safe pm pfd trailing hpf ht) (close_safe _))
-              · intro _ _
-                have hfollow : Safe (Disc true) (Sys.openatFollow pfd trailing fl 0) FdOk := by
-                  apply openatFollow_safe
-                  intro _
-                  refine Or.inr (Or.inl ⟨rfl, hpf, ht, ?_⟩)
-                  have : ∀ f, f ||| O_CLOEXEC ||| O_NOCTTY = f ||| (O_CLOEXEC ||| O_NOCTTY) := by
-                    intro f; simp [Nat.or_assoc]
-                  rw [this]
-                  exact hasAll_or_left _ _
-                apply Safe.mbind (Q' := fun r => ∀ x, r = .ok x → FdOk x) (try_fd hfollow)
-                · intro r hr
-                  apply Safe.mbind (Q' := fun _ => True) (lift_any (close_safe _))
-                  · intro _ _; exact Safe.ofExcept (hr _ rfl)
-                  · intro e _; exact FdOk_err e
-                · intro e _; exact FdOk_err e
-              · intro e _; exact FdOk_err e
-            · intro e _; exact FdOk_err e
-          · intro e _; exact FdOk_err e
-      · intro e _; exact FdOk_err e
+    · exact openFollowTail_safe env h base _ fl hh
   · intro e _; exact FdOk_err e
 
 theorem reopen_safe (env : Env) (fd : Fd) (flags : Nat) (hf : 0 ≤ fd) (hp : 0 ≤ env.proc.fd) :
